@@ -30,6 +30,29 @@ func loggerValue(e *Engine) value {
 }
 
 func registerPalomaHelpers(e *Engine) {
+	// util/libvalid.IsNil peeks at the interface data word through unsafe: true for
+	// a nil interface and for nil values of pointer-shaped types (pointer, map,
+	// chan, func); every other kind is boxed, so its data word is never zero.
+	e.reg(modPath+"/util/libvalid.IsNil", func(fr *frame, args []value) value {
+		x := args[0].(iface)
+		if x.t == nil {
+			return true
+		}
+		switch x.t.Underlying().(type) {
+		case *types.Pointer:
+			p, _ := x.v.(*value)
+			return p == nil
+		case *types.Map:
+			m, _ := x.v.(*gomap)
+			return m == nil
+		case *types.Chan:
+			c, _ := x.v.(*chanVal)
+			return c == nil
+		case *types.Signature:
+			return isNilFunc(x.v)
+		}
+		return false
+	})
 	// util/libeth.ValidateEthAddress on the opaque rendering of a symbolic address
 	// (always a well-formed 20-byte address); concrete strings run the real code.
 	if e.pkg(modPath+"/util/libeth") != nil {
